@@ -446,6 +446,13 @@ def Obs.violations (o : Obs) : List String :=
   (if !o.word.closed || o.otherExit || (o.drainedExits == 1 && !o.alive) then [] else ["drain-never-finishes"]) ++
   (if o.word.closed || o.drainedExits == 0 then [] else ["drained-without-drain"])
 
+/-- Round 4. In a cluster build a message enqueued by `send_serialized` is decoded lazily, inside
+`handle_message` on the actor's task; when `Msg::from_boxed` fails (or panics) the message is dropped
+with `Ok(())` and the loop goes on. The ghost `handled` records that `handle_message` was started for
+the message; what reaches the user's `handle` is `handled` without the undecodable ids. -/
+def userHandled (undecodable handled : List Nat) : List Nat :=
+  handled.filter (fun i => !undecodable.contains i)
+
 /-- Round 4, the `ok-not-handled` clause where a later stop / kill cannot excuse a loss: observed at
 a moment when the live actor's task had run until it blocked (mailbox empty, nothing taken) and no
 stop / kill had been accepted so far — every send that had returned `Ok` by then is handled by then.
